@@ -1352,6 +1352,14 @@ int32_t pstm_div_2d(psPool_t *pool, const pstm_int *a, int16_t b, pstm_int *c,
         }
         return PSTM_OKAY;
     }
+    /* compute the remainder first: c may alias a */
+    if (d != NULL && d != c)
+    {
+        if (pstm_mod_2d(a, b, d) != PSTM_OKAY)
+        {
+            return PS_MEM_FAIL;
+        }
+    }
     /* copy */
     if (pstm_copy(a, c) != PSTM_OKAY)
     {
@@ -1399,14 +1407,6 @@ int32_t pstm_div_2d(psPool_t *pool, const pstm_int *a, int16_t b, pstm_int *c,
 
     res = PSTM_OKAY;
 LBL_DONE:
-    /* set the remainder */
-    if (d != NULL)
-    {
-        if (pstm_mod_2d(a, b, d) != PSTM_OKAY)
-        {
-            res = PS_MEM_FAIL;
-        }
-    }
     return res;
 }
 
